@@ -1,7 +1,8 @@
 (** Property C14 - runner protocol: requests sent exactly once, toggles never lost, clean stop.
     Only the property theorems, each closed by [exact], each followed by [Print Assumptions].
     Model: Runner/Lts.v (LTS of run.go + generated channel code, any number of threads) and
-    Runner/RunModel.v (receive loop and Run's result mapping as pure functions).
+    Runner/RunModel.v (receive loop and Run's result mapping as pure functions; error texts are
+    [list ascii], [txt "..."] converts a literal).
     Proofs: Runner/Protocol.v.
     Per transmitter record x: t_acc = event requests accepted, t_tk = ticks taken, t_txd = frames
     transmitted, t_ab = transmissions aborted by a failing hook / TransmitFrame (which ends the
@@ -137,13 +138,13 @@ Print Assumptions C14_receiver_hook_calls.
 
 (** Run's result: cancellation (every goroutine returns nil or a connection-"closed" error) gives nil *)
 Theorem C14_run_cancel_returns_nil : forall node results,
-  (forall e, In (Some e) results -> contains "closed" e = true) -> run_result node results = None.
+  (forall e, In (Some e) results -> contains (txt "closed") e = true) -> run_result node results = None.
 Proof. exact run_cancel_returns_nil. Qed.
 Print Assumptions C14_run_cancel_returns_nil.
 
 (** a failing hook / unmarshal / transmit whose error text does not contain "closed" is returned *)
 Theorem C14_run_error_returned : forall node e rest,
-  contains "closed" e = false -> run_result node (Some e :: rest) = run_spec node (Some e).
+  contains (txt "closed") e = false -> run_result node (Some e :: rest) = run_spec node (Some e).
 Proof. exact run_error_returned. Qed.
 Print Assumptions C14_run_error_returned.
 
@@ -151,7 +152,7 @@ Print Assumptions C14_run_error_returned.
     mapped to nil by Run although the property demands that error *)
 Theorem C14_run_error_refuted :
   exists e node, run_result node [Some (wrap_receiver e)] = None /\
-                 run_spec node (Some (wrap_receiver e)) <> None /\ e = "valve closed"%string.
+                 run_spec node (Some (wrap_receiver e)) <> None /\ e = txt "valve closed".
 Proof. exact run_error_refuted. Qed.
 
 (** non-vacuity: a cyclic transmitter (2) and an application (3): enable while parked, one tick
